@@ -380,6 +380,45 @@ def check_output(v, ctx, cfg, callee, pos, kws, expected_obj, ns, equal):
 CALL_EVAL_NS = {'pvf': pvf, 'M': M, 'collections': collections}
 
 
+def _code_dump(text):
+    return ast.dump(ast.parse('(' + text + '\n)', mode='eval').body)
+
+
+def check_commented_call(cls, args, kwargs, plain, ctx, cfg):
+    """the same call with comment() around ONE argument value (each keyword value in turn, then the first positional): a comment is
+    inert, so the text must still be an expression with the syntax tree of the uncommented print - "each argument printed exactly as it
+    would be on its own" includes an argument that carries a comment"""
+    width, ribbon, indent = cfg
+    sort = bool(width % 2)
+    kw = dict(width=width, ribbon_width=ribbon, indent=indent, max_seq_len=997, sort_dict_keys=sort)
+
+    def show(x):
+        return x if ctx == 'top' else [0, x]
+    with common.caught_warnings():
+        want = _code_dump(pp.pformat(show(plain), **kw))
+    variants = []
+    for i, (k, val) in enumerate(kwargs):
+        variants.append(('keyword %s' % k, list(args), [(k2, pp.comment(v2, 'remark on %s' % k2) if j == i else v2) for j, (k2, v2) in enumerate(kwargs)]))
+    if args:
+        variants.append(('positional 0', [pp.comment(args[0], 'remark on the first')] + list(args[1:]), list(kwargs)))
+    for what, a2, k2 in variants:
+        try:
+            vc = cls(*a2, **dict(k2))
+            with common.caught_warnings() as cw:
+                out = pp.pformat(show(vc), **kw)
+        except Exception as e:      # noqa
+            return ('commented-argument-raised', '%s: %s' % (type(e).__name__, e), 'pformat returns a str', '')
+        if cw.bad:
+            return ('printer-raised', out + '   # warning: ' + cw.bad[0], 'no "raised an exception" warning (comment on %s)' % what, out)
+        try:
+            got = _code_dump(out)
+        except SyntaxError as e:
+            return ('commented-argument-not-parsable', '%s -> %s' % (out, e), 'the call, with a comment on %s' % what, out)
+        if got != want:
+            return ('commented-argument-differs', out, 'the same syntax tree as without the comment on %s' % what, out)
+    return None
+
+
 def check(case):
     ensure_setup()
     cfg = tuple(case['cfg'])
@@ -390,8 +429,13 @@ def check(case):
         v = cls(*args, **dict(kwargs))
         pos = [(a, e) for a, e in zip(args, case['args'])]
         kws = [(k, val, e) for (k, val), (_k, e) in zip(kwargs, case['kwargs'])]
-        return check_output(v, case['ctx'], cfg, callee, pos, kws, v, CALL_EVAL_NS,
-                            lambda x, y: type(x) is type(y) and x == y)
+        res = check_output(v, case['ctx'], cfg, callee, pos, kws, v, CALL_EVAL_NS,
+                           lambda x, y: type(x) is type(y) and x == y)
+        if res[0] is None and (args or kwargs):
+            bad = check_commented_call(cls, args, kwargs, v, case['ctx'], cfg)
+            if bad is not None:
+                return bad
+        return res
     spec = case['spec']
     cls, inst, expected, shown = make_instances(spec, case['inst'])
     callee = spec['name'] if spec['main'] else MODPATH + '.' + spec['name']
